@@ -76,6 +76,9 @@ def small(case):
     from numdifftools.multicomplex import Bicomplex
     from ndvc.concrete import small_argument_cases
     cnt, bad = small_argument_cases(Bicomplex)
+    from ndvc.concrete import small_domain_cases
+    cnt2, bad2 = small_domain_cases(Bicomplex)
+    cnt, bad = cnt + cnt2, bad + bad2
     return dict(reproduced=bool(bad), failing=bad[:3], samples=cnt,
                 statement='expm1, sin, sinh, tan, tanh near 0: every component agrees with the idempotent spec to 1e-12 relative')
 
@@ -111,3 +114,34 @@ def defstep(case):
     want = case.get('name')
     bad = [dict(case=k, **(v[1] or {})) for k, v in sorted(res.items()) if not v[0] and (want is None or k == want)]
     return dict(reproduced=bool(bad), failing=bad[:4], statement='Derivative(f, method="multicomplex", n) with default steps == analytic derivative (rtol 1e-8)')
+
+
+@reg('C12.consumers')
+def consumers(case):
+    """the difference functions that read imag1 / imag12 off a Bicomplex evaluation, with a different step per coordinate, on a
+    function with mixed partial derivatives (exact: exp of a linear form)"""
+    import numdifftools.finite_difference as fd
+    bad = []
+    c = np.array([0.7, -1.1, 0.4])
+    for d in (1, 2, 3):
+        cc = c[:d]
+        x = np.array([0.3, -0.2, 0.5])[:d]
+        h = np.array([1e-3, 4e-3, 2.5e-4])[:d]
+
+        def f(z):
+            s_ = z[0] * cc[0]
+            for k in range(1, d):
+                s_ = s_ + z[k] * cc[k]
+            return s_.exp() if hasattr(s_, 'exp') else np.exp(s_)
+        val = np.exp(np.dot(cc, x))
+        want_h = val * np.outer(cc, cc)
+        got = fd.HessianDifferenceFunctions._multicomplex2(f, None, x, h)
+        if np.shape(got) != (d, d) or not np.allclose(got, want_h, rtol=1e-4, atol=1e-9):
+            bad.append(dict(function='HessianDifferenceFunctions._multicomplex2', d=d, steps=h.tolist(), got=np.asarray(got).tolist(), expected=want_h.tolist()))
+        got = fd.HessdiagDifferenceFunctions._multicomplex2(f, None, x, h)
+        if not np.allclose(got, np.diag(want_h) * h * h, rtol=1e-4, atol=1e-15):
+            bad.append(dict(function='HessdiagDifferenceFunctions._multicomplex2 (imag12 = h^2 f_ii)', d=d, steps=h.tolist(), got=np.asarray(got).tolist(), expected=(np.diag(want_h) * h * h).tolist()))
+        got = fd.JacobianDifferenceFunctions._multicomplex(f, None, x, h)
+        if not np.allclose(np.ravel(got), val * cc * h, rtol=1e-4, atol=1e-12):
+            bad.append(dict(function='JacobianDifferenceFunctions._multicomplex', d=d, steps=h.tolist(), got=np.ravel(got).tolist(), expected=(val * cc * h).tolist()))
+    return dict(reproduced=bool(bad), failing=bad[:3])
